@@ -54,6 +54,7 @@ func runSeqOp(w *world, kind string, op opSpec, observe bool) opObs {
 	}
 	c.done()
 	o := opObs{Res: errKind(err), Installed: -1, NOps: c.n, Crashed: c.crashed.Load(), trace: c.trace}
+	o.CtxEnded = op.Fault != nil && strings.HasPrefix(op.Fault.Kind, "ctx")
 	if c.crashed.Load() {
 		o.Res = "crashed"
 	} else if c.panicked {
